@@ -22,7 +22,7 @@ ASSUMPTIONS = ['"stands with the first candidate not yet transferred" is checked
                'transfer; the names in a "Transfer defeated:" message)']
 MIN_COUNTERS = {'counts_judged': 200, 'tally_equalities_checked': 5000, 'surplus_transfers_checked': 300,
                 'exclusion_transfers_checked': 300, 'reweighted_ballots_checked': 1000}
-WEIGHTS = dict(G1=3, G2=1, G3=3, G4=6, G5=1, G6=2, G7=2, G9=1, G10=1)
+WEIGHTS = dict(G1=3, G2=1, G3=3, G4=6, G4b=2, G5=1, G6=2, G7=2, G9=1, G10=1)
 ANCHOR_FILES = ['droop/rules/wigm.py', 'droop/rules/wigm_prf.py', 'droop/rules/cfer.py', 'droop/rules/scotland.py',
                 'droop/rules/mpls.py', 'droop/election.py', 'droop/values/fixed.py']
 
